@@ -192,6 +192,13 @@ def main():
         m = re.search(r"typedef\s+([A-Za-z_<>, ]+?)\s+transpose_engine\s*;", body)
         if m:
             out["transpose_engine"] = ["".join(m.group(1).split())]
+        else:
+            # typedef typename if_then_else<(COND), X, Y>::type transpose_engine;  COND over the band widths
+            m = re.search(r"typedef\s+typename\s+if_then_else\s*<\s*\(([^()]*)\)\s*,\s*([A-Za-z_]+<[A-Za-z_0-9, ]*>)\s*,\s*([A-Za-z_]+<[A-Za-z_0-9, ]*>)\s*>\s*::\s*type\s+transpose_engine\s*;", body)
+            if m:
+                out["transpose_engine"] = ["if|%s|%s|%s" % tuple("".join(g.split()) for g in m.groups())]
+            elif "transpose_engine" in body:
+                die("transpose_engine typedef of an unknown form in %s" % key)
         return out
     mem = {k: members(k) for k in structs}
 
@@ -275,9 +282,20 @@ def main():
     out.append("  end.")
     define("guard", "loc e1 e2", guard)
     define("stored", "i j", stored)
-    out.append("Definition transpose_engine (e : engine) : engine :=\n  match e with")
+    out.append("(* L, U: the band widths of the matrix being transposed *)")
+    out.append("Definition transpose_engine (e : engine) (L U : Z) : engine :=\n  match e with")
+    names = dict(TRANSPOSE_NAMES)
+    names["BandEngine<ROW_MAJOR,0,0>"] = "BandR"     # only as the branch taken when both widths are zero
     for e in ENGINES:
         body, key = resolve(e, "transpose_engine")
+        if body.startswith("if|"):
+            _, cond, yes, no = body.split("|")
+            if cond != "LDiags+UDiags==0":
+                die("%s: transpose_engine condition '%s' is not a modelled one" % (key, cond))
+            if yes != "BandEngine<ROW_MAJOR,0,0>" or no not in TRANSPOSE_NAMES:
+                die("%s: unknown transpose_engine branches '%s' / '%s'" % (key, yes, no))
+            out.append("  | %s => if (L + U =? 0) then %s else %s" % (e, names[yes], TRANSPOSE_NAMES[no]))
+            continue
         if body not in TRANSPOSE_NAMES:
             die("%s: unknown transpose_engine '%s'" % (key, body))
         out.append("  | %s => %s" % (e, TRANSPOSE_NAMES[body]))
